@@ -520,3 +520,17 @@ theorem runOps_destinations (k : Kind) (os : Os) (a : Addr) : ∀ (ops : List Op
       | err e => exact ih h1 hs
 
 end Gd.SockRs
+
+namespace Gd.SockRs
+open Gd.Settings (zeroOpt)
+
+/-- an instance for the non-vacuity examples: a system on which everything succeeds, nothing is ever delivered, and std
+refuses a zero duration -/
+def quietOs : Os := ⟨fun _ _ => .ok (), fun _ _ _ => .ok (), fun _ d => if zeroOpt d then .error .invalidInput else .ok (),
+  fun _ d => if zeroOpt d then .error .invalidInput else .ok (), fun _ d _ => .ok d.length,
+  fun _ _ => .error .wouldBlock, fun _ d => .ok d.length, fun _ => .fail .wouldBlock .closed, fun _ _ => 0⟩
+
+theorem quietOs_contract : SettersFailOnlyOnZero quietOs := by
+  constructor <;> intro h d k hk <;> simp only [quietOs] at hk <;> split at hk <;> simp_all
+
+end Gd.SockRs
